@@ -258,16 +258,16 @@ def wTail (x : AReq × MutexSt × Transport × IRes) : Except CloseOut CloseMid 
 
 theorem closeP1_resume (r : AReq) (m : MutexSt) (t : Transport) :
     closeP1 r .inWriteable m t = wTail (r.pollInput none m t) := by
-  simp only [closeP1, AReq.writeablePoll]
-  rcases r.pollInput none m t with ⟨r', m', t', res⟩
-  cases res <;> rfl
+  rcases h : r.pollInput none m t with ⟨r', m', t', res⟩
+  cases res <;> simp [closeP1, AReq.writeablePoll, h, wTail]
 
 theorem closeP1_first (r : AReq) (m : MutexSt) (t : Transport) (hwr : r.writeable = false) {sp8 : Str.Parser}
     (hset : r.sp.setStream (inputStreams r.sp.request.role).getLast? = .ok sp8) :
     closeP1 r .start m t = wTail (({ r with sp := sp8 } : AReq).pollInput none m t) := by
-  simp only [closeP1, AReq.writeablePoll, hwr, hset]
-  rcases ({ r with sp := sp8 } : AReq).pollInput none m t with ⟨r', m', t', res⟩
-  cases res <;> rfl
+  rcases h : ({ r with sp := sp8 } : AReq).pollInput none m t with ⟨r', m', t', res⟩
+  have h' : ({ sp := sp8, lock := r.lock, writeable := false } : AReq).pollInput none m t = (r', m', t', res) := by
+    rw [← hwr]; exact h
+  cases res <;> simp [closeP1, AReq.writeablePoll, hwr, hset, h', wTail]
 
 /-- the request as `close` sees it after `writeable()`: Stdin and the noise of the Data stream are
 consumed, the Data terminator is left -/
@@ -346,8 +346,7 @@ theorem fu_wpoll {g : Cfg} (ok : FUOK g) (hk : g.p.flags.toNat % 2 = 1) {c : Con
       simp only [epilogueOf, hwr, if_true, Cfg.epi, outputStreams]
       show makeRequestEpilogue (spIgnore r'.sp).request.id g.st _ = _
       rw [spIgnore_request, hreq]
-      have hro : g.p.request.role = 3 := ok.role
-      rw [hro]; rfl
+      rfl
     have heq : closePoll r cs (gF g).st 0 c.env.mutex c.env.tr =
         closeP4 (closeReq r') none t' (.writeOut r'.sp.output (gF g).epi) := by
       show closePoll r cs g.st 0 c.env.mutex c.env.tr = _
@@ -379,9 +378,124 @@ theorem fu_wpoll {g : Cfg} (ok : FUOK g) (hk : g.p.flags.toNat % 2 = 1) {c : Con
         show _ = owedI g.p.id g.mc g.R ++ owedStream g.p.id 8 g.mc g.body2
         rw [← owedI_eq_owedStream8]; simp [owedI, List.flatMap_append]
       rw [this]; rfl
-    exact ((uclose_out_m (g := gF g) hph heq hts hce hlog hb hstop hev hsc).toG hk).imp
+    exact (URes2.toG (g := gF g) hk (uclose_out_m (g := gF g) hph heq hts hce hlog hb hstop hev hsc)).imp
       (fun _ _ h => Or.inr (Or.inr h)) (fun _ _ h => h)
   | err e => exact hpost.elim
   | panic s => exact hpost.elim
+
+/-- the first poll of the handler `[.ret st]` of the Filter: it returns, `close` starts `writeable()` -/
+theorem filter0_first {g : Cfg} (ok : FUOK g) (hk : g.p.flags.toNat % 2 = 1) : FirstPoll g (SF g) (AfterU (gF g)) := by
+  intro c e1 hph hlen hwire hlog hm hb hstop hev hsc
+  have hrole : g.p.request.role = 3 := ok.role
+  have hstep := C07.handler_step c _ _ hph
+  obtain ⟨f, hf⟩ : ∃ f, handlerFuel c.env = f + 1 := ⟨handlerFuel c.env - 1, by have := handlerFuel_ge c.env; omega⟩
+  rw [ok.hs, hf, hp_ret] at hstep
+  have hts2 : TStep c.env.tr (c.env.tr.ev s!"HE(ok:{showStatus g.st})") := TStep.ev _ (by simp [isHS, toString_str])
+  have hstep' : stepConn c = .next ⟨.closing (AReq.new (Str.Parser.fromParser g.cap g.p.request e1 g.mc)) .start g.st 0,
+      c.env.ev s!"HE(ok:{showStatus g.st})", c.scripts, c.stop⟩ := hstep
+  have hwr : (AReq.new (Str.Parser.fromParser g.cap g.p.request e1 g.mc)).writeable = false := by
+    simp [AReq.new, Str.Parser.fromParser, hrole, inputStreams]
+  have hstrm : (Str.Parser.fromParser g.cap g.p.request e1 g.mc).stream = some 5 := by
+    simp [Str.Parser.fromParser, hrole, nextInputStream, RT.stdin]
+  have hset : (Str.Parser.fromParser g.cap g.p.request e1 g.mc).setStream
+      (inputStreams (Str.Parser.fromParser g.cap g.p.request e1 g.mc).request.role).getLast? =
+      .ok ((Str.Parser.fromParser g.cap g.p.request e1 g.mc).switchTo (some 8)) := by
+    have e : (inputStreams (Str.Parser.fromParser g.cap g.p.request e1 g.mc).request.role).getLast? = some 8 := by
+      show (inputStreams g.p.request.role).getLast? = some 8
+      rw [hrole]; rfl
+    rw [e, setStream_some_input _ (by decide) (by intro e he; rw [hstrm] at he; cases he; decide), hstrm]
+    have hl : Later (Str.Parser.fromParser g.cap g.p.request e1 g.mc).request.role (some 5) 8 := by
+      show Later g.p.request.role (some 5) 8
+      rw [hrole]; exact later358
+    simp [hl]
+  have hsinv0 := Str.SInv_fromParser g.cap g.p.request e1 g.mc hlen ok.hid
+  have hri : RInv g.K8u
+      ({ AReq.new (Str.Parser.fromParser g.cap g.p.request e1 g.mc) with
+        sp := (Str.Parser.fromParser g.cap g.p.request e1 g.mc).switchTo (some 8) } : AReq)
+      e1 c.env.tr.input [] [] := by
+    refine ⟨⟨rfl, hrole, rfl, rfl, by show 8 ∈ inputStreams 3; decide⟩,
+      SInv_switchTo hsinv0 (Or.inr ⟨8, rfl, by show 8 ∈ inputStreams g.p.request.role; rw [hrole]; decide⟩),
+      rfl, rfl, rfl, hwire, fun x => ?_⟩
+    rw [RefOut.pre_nil]
+    exact (ref_eq_refWire _ _ _).symm
+  have hcore := fu_wpoll ok hk
+    (c := ⟨.closing (AReq.new (Str.Parser.fromParser g.cap g.p.request e1 g.mc)) .start g.st 0,
+      c.env.ev s!"HE(ok:{showStatus g.st})", c.scripts, c.stop⟩) (dO := []) rfl
+    (closeP1_first _ _ _ hwr hset)
+    ⟨⟨e1, hri⟩, by show LockInv _ c.env.mutex; rw [hm]; exact lockInv_free rfl, Or.inl hm,
+      ⟨[], by show c.env.tr.wlog = _; rw [hlog, List.append_nil], rfl⟩⟩
+    (hb.step hts2) hstop (hev.step hts2) hsc
+  exact (GRes.of_steps (Steps.one hstep') ⟨hts2.w, rfl, rfl⟩ hcore).mono (by omega)
+
+theorem SF.cong {g : Cfg} {c c' : Conn} (h : SF g c)
+    (hph : c'.phase = c.phase) (hsc : c'.scripts = c.scripts) (hstop : c'.stop = c.stop)
+    (hm : c'.env.mutex = c.env.mutex) (hs : TrSame c.env.tr c'.env.tr) : SF g c' := by
+  rcases h with h | ⟨r, dO, h1, h2, h3, h4, h5, h6⟩ | h
+  · exact Or.inl (h.cong hph hsc hstop hm hs)
+  · exact Or.inr (Or.inl ⟨r, dO, hph.trans h1, h2.cong hm hs, hs.ben h3, hstop.trans h4, hs.ev1 h5, hsc.trans h6⟩)
+  · exact Or.inr (Or.inr (h.cong hph hsc hstop hm hs))
+
+theorem sf_poll {g : Cfg} (ok : FUOK g) (hk : g.p.flags.toNat % 2 = 1) {c : Conn} (h : SF g c) :
+    GRes (SF g) (AfterU (gF g)) (2 * c.env.tr.input.length + 9) c := by
+  rcases h with h | ⟨r, dO, h1, h2, h3, h4, h5, h6⟩ | h
+  · exact fstage_poll ok.fok (fun _ h => Or.inl h) (filter0_first ok hk) h
+  · exact (fu_wpoll ok hk h1 (closeP1_resume _ _ _) h2 h3 h4 h5 h6).mono (by omega)
+  · exact ((lstage_poll (g := gF g) hk h).imp (fun _ _ h => Or.inr (Or.inr h)) (fun _ _ h => h)).mono (by omega)
+
+/-- **The executor** for a Filter request with KEEP_CONN and a Data stream without content whose
+handler is `[.ret st]`. -/
+theorem run_filter0 {g : Cfg} (ok : FUOK g) (hk : g.p.flags.toNat % 2 = 1) {Z : Bytes}
+    (hns : NoStuckW g.cap g.mc (g.term2.ser ++ Z))
+    (hNF : ∀ F x, F ++ x ++ Z = g.term2.ser ++ Z → (run .header F g.mc).st.isFinal = false)
+    (em : EndMode) (evs0 : List String) (c : Conn) (n0 fuel : Nat) (hst : FStage g c)
+    (hem : c.env.tr.endMode = em) (hev0 : ∀ s ∈ evs0, s ∈ c.env.tr.events)
+    (hsegs : c.env.segs = []) (hf : ans c.env.tr + 1 ≤ fuel) (hlen : 6 * c.env.tr.input.length + 26 ≤ 100000) :
+    ∃ c'' fin, runTask fuel c n0 none = (c'', fin) ∧
+      GEnd g.cap g.mc Z g.more (g.hs0 + 1) (fun _ : Unit => True) (fun _ => g.term2.ser ++ Z) (fun _ => (gF g).LU)
+        (fun _ => [hsEvent g.p.request]) em evs0 (ans c.env.tr) c'' fin := by
+  have hU : (gF g).U = g.term2.ser := C02.serAll_single _
+  exact run_stages (cap24 g) (fun _ _ => hns) (fun _ _ => hNF) (fun _ _ h => h.cong)
+    (fun _ h => (sf_poll ok hk h).imp (fun _ _ h => h) (fun _ _ h => by
+      have := AfterU.ztail (Z := Z) h
+      rw [hU] at this
+      exact this))
+    em evs0 c n0 fuel (Or.inl hst) hem hev0 hsegs hf hlen
+
+/-- the Filter request of `run_filter0` started from any `StartAt` of a chain: it ends parked behind
+its Data terminator -/
+theorem serve_filter0_core {g : Cfg} (ok : FUOK g) (hk : g.p.flags.toNat % 2 = 1) {left : List Rec}
+    (hleft : LeftOK (alignedBufsize g.b) left) {Z : Bytes} (hT : IdleNoise g.term2)
+    (hZ : GoodNext g.cap g.mc [g.term2] Z)
+    {Lw : Bytes} {evs : List String} {A0 : Nat} {c : Conn} (n0 fuel : Nat)
+    (hLw : Lw = g.L0 ++ idleOwed g.mc left)
+    (hstart : StartAt g.cap g.mc left Lw ((g.hscript, true) :: g.more) g.hs0 evs A0 g.W c)
+    (hf : A0 + 1 ≤ fuel) (hsize : 6 * g.W.length + 26 ≤ 100000) :
+    ∃ c', runTask fuel c n0 none = (c', "STALL") ∧
+      Waiting g.cap g.mc [g.term2] ((gF (g.front left)).LU ++ idleOwed g.mc [g.term2]) g.more (g.hs0 + 1)
+        (hsEvent g.p.request :: evs) A0 c' := by
+  have okf := ok.front hleft
+  obtain ⟨hst, hsg, hem, hans, hev, hin⟩ := fstage_of_startAt hleft hLw hstart
+  have hser : serAll [g.term2] = g.term2.ser := C02.serAll_single _
+  have hidle : ∀ e ∈ [g.term2], IdleNoise e := fun e he => by rw [List.mem_singleton.1 he]; exact hT
+  obtain ⟨c', fin, hrun, _, _, hkp, hem', hev', hans', hsg', hend⟩ :=
+    run_filter0 okf hk (Z := Z) (by show NoStuckW g.cap g.mc (g.term2.ser ++ Z); rw [← hser]; exact hZ.1)
+      (by show ∀ F x, F ++ x ++ Z = g.term2.ser ++ Z → _; rw [← hser]; exact hZ.2) .pend evs c n0 fuel hst hem hev hsg
+      (by omega) (by rw [hin]; exact hsize)
+  rcases hend with ⟨rfl, hp⟩ | ⟨_, hfn⟩
+  · obtain ⟨F, hF, hps, hph, hlg⟩ := hp.pst
+    have hFe : F = serAll [g.term2] := by rw [hser]; exact List.append_cancel_right hF
+    subst hFe
+    have hnf : (run .header (serAll [g.term2]) g.mc).st.isFinal = false := (run_idle_out g.mc _ hidle).2.2
+    have hob : (run .header (serAll [g.term2]) (g.front left).mc).out = idleOwed g.mc [g.term2] :=
+      (run_idle_out g.mc _ hidle).1
+    refine ⟨c', hrun, ⟨hph, hnf, hps.rem, hp.inp, by rw [hlg, hob], ⟨(gF (g.front left)).LU, by
+      show _ = _ ++ (run .header (serAll [g.term2]) (g.front left).mc).out
+      rw [hob]⟩, hps.stop, hps.ben, hkp.sc, hkp.mx,
+      hkp.hs, ?_, hsg', hem', by omega⟩⟩
+    intro s hs
+    rcases List.mem_cons.1 hs with rfl | hs
+    · exact hkp.ev _ List.mem_cons_self
+    · exact hev' s hs
+  · rw [hfn.em] at hem'; cases hem'
 
 end Fcgi.E2E
